@@ -285,6 +285,22 @@ def edge_instance(rng, features=True, allow_isolated=True):
     return inst
 
 
+def detour_instance(rng):
+    """two planted paths: one takes the detour u -> x -> v, the other the shortcut u -> v; the subpath constraint runs from the
+    first path's entry edge through the shortcut, so no path of the greedy / unconstrained minimum contains it and the
+    constrained minimum needs one more path"""
+    w1, w2 = rng.sample([1, 2, 3, 5], 2)
+    fl = {("a", "u"): w1, ("u", "x"): w1, ("x", "v"): w1, ("b", "u"): w2, ("u", "v"): w2, ("v", "t"): w1 + w2}
+    if rng.random() < 0.5:                       # a tail behind the junction
+        fl[("t", "z")] = w1 + w2
+    edges = list(fl); nodes = sorted({x for e in edges for x in e})
+    rng.shuffle(edges); rng.shuffle(nodes)
+    wint = rng.random() < 0.7
+    return {"cls": "MinFlowDecomp", "nodes": nodes, "edges": [list(e) for e in edges], "origin": "edge",
+            "weight_type": "int" if wint else "float", "constraints": [[["a", "u"], ["u", "v"]]], "coverage": "1", "ignore": [],
+            "flow": [[u, v, qstr(frac(fl[(u, v)]) * (1 if wint else frac(0.5)))] for (u, v) in edges], "planted": 2}
+
+
 def node_instance(rng):
     for _ in range(50):
         nodes, edges = small_dag(rng)
@@ -712,7 +728,7 @@ def run_k5(ctx):
         k5_case(ctx, inst, opts, None, suite="K5.minimum")
     for it in range(ctx.n(220, 2500)):
         r = rng.random()
-        inst = node_instance(rng) if r < 0.3 else edge_instance(rng)
+        inst = detour_instance(rng) if it % 40 == 7 else node_instance(rng) if r < 0.3 else edge_instance(rng)
         best = brute_min(inst)
         if best is None:
             continue
